@@ -13,6 +13,10 @@ CLAIMED = {
             "all values of inputs, parameters, boxes and tail bounds; bin counts enumerated", "4-C09"),
     "C17": ("proof", "contract-based deductive verification: raises-iff contracts on the explored paths plus index-in-range / definedness obligations on every non-raising path",
             "InputOutsideDomain is raised iff an input is outside the closed domain, and no other failure is reachable, for all values", "4-C17"),
+    "C07": ("proof", "contract-based deductive verification: real coupling classes executed on symbolic tensors with an uninterpreted per-item conditioner; identity features are the very input symbols, the conditioner's shown set, dependency sets and monotonicity are postconditions",
+            "for every enumerated mask and shape: all input values, all conditioner functions", "4-C07"),
+    "C20": ("proof", "contract-based deductive verification: index specifications of the helpers as postconditions over symbolic tensors (syntactic symbol identity for data movement, z3 for arithmetic), frame condition `assigns nothing` from the write log",
+            "all tensor values for every enumerated shape; typecheck predicates by evaluation (bounded)", "4-C20"),
 }
 REASON_TODO = "check not built yet in this session (the design in DESIGN.md section 4 applies; will be claimed when its contracts discharge)"
 props = [json.loads(l) for l in open(os.path.join(V, "properties.jsonl"))]
